@@ -197,7 +197,8 @@ def chk_refusal(root, form, arg):
 def execute(case):
     k = case.get("k")
     if k == "corner":
-        o, nt, vs = chk_corner(case["root"], case["i"], tuple(case["il"]))
+        from ..core import isolated
+        o, nt, vs = isolated(chk_corner, case["root"], case["i"], tuple(case["il"]))
     elif k == "refuse":
         o, nt, vs = chk_refusal(case["root"], case["form"], case["arg"])
     elif "hist" in case and "model" not in case and k is None:
